@@ -10,7 +10,7 @@ META = {
     "technique": "Coq proofs by induction on recursion fuel over a Gallina transcription of _operator_decomposition_gen / decompose with the graph solution, op.decomposition() and the gate-set predicate as oracles; vm_compute correspondence on traced real runs; exact (Q(zeta_8)) and numeric unitary comparison of input and output; resource_estimate compared with the gates emitted",
     "design_ref": "DESIGN.md §3 C12, §5 item 15",
     "text": "Theorems (Props/C12.v, for all operators, oracles, fuels, budgets): every emitted operator is accepted by the stopping condition (under its Conditional wrappers), or is an Allocate/Deallocate, or carries an explicit flag (max-depth reached / GlobalPhase warning / non-strict keep) - otherwise the run is an error (decompose_in_target, and its strict corollary without flags); if every decomposition the oracles return is semantics-preserving in an arbitrary monoid then the output denotes the input (decompose_sem); if every decomposition used matches the declared resources of its gate type, the emitted gate types are a permutation of the estimate obtained by summing declared resources along the chosen tree (estimate_matches); the work-wire budget of every emitting call is non-negative when the solution only returns feasible rules (budget_never_negative). Tie, re-run on /repo each time: generated circuits x gate sets x graph on/off x budgets are run through qp.transforms.decompose (and the generator directly with strict/custom_decomposer) under a call tracer; (a) every output operator is checked against the harness' own reading of the gate set / stopping condition; (b) the output unitary (work wires in |0>, mid-circuit measurements deferred) equals the input unitary including global phase, numerically at 1e-8 and against the input simulated exactly in Coq; (c) the Coq model is evaluated with oracle tables the harness computes independently (own execution of the rule the graph solution names, own op.decomposition()) and must emit the same operators with the same work-wire budgets and the same number of warnings; (d) DecompGraphSolution.resource_estimate equals the multiset of gate types emitted when all rules on the subtree declare exact resources.",
-    "note": "Not proved: optimality/feasibility of the rustworkx graph search, correctness of individual decomposition rules (C10) and of their declared resources (C11) - these are hypotheses of decompose_sem / estimate_matches and are validated per generated instance by (b) and (d). The plxpr (program capture) DecomposeInterpreter is not modelled. Leftover operators: with the graph disabled the docstring of decompose documents 'left in the circuit with a UserWarning' (allowed, warning required); with the graph enabled GlobalPhase is kept with its own documented warning (allowed); with the graph enabled, strict=False treats such operators as supported (allowed); with the graph enabled and strict=True the docstring promises a DecompositionError: an operator left in the output there is reported as finding:graph_strict_leftover. Fixed/alternative decomposition options are exercised only through a small set of alt_decomps. Circuits have <= 3 wires (MultiControlledX up to 5).",
+    "note": "Not proved: optimality/feasibility of the rustworkx graph search, correctness of individual decomposition rules (C10) and of their declared resources (C11) - these are hypotheses of decompose_sem / estimate_matches / budget_never_negative and are validated per generated instance by (b), by (d) (whose premise 'declared resources = operators produced' is itself checked per rule on the instance, at the level of gate-type names) and by the recorded budgets. The model's `expand` is tied to DecompGraphSolution.resource_estimate only through (d) (real estimate = real emission) plus the theorem (model emission = expand); gate types in (d) are compared by name (to_name), not by abstract parameters. The oracle tables fed to the model are computed by the harness from the same DecompGraphSolution object and the same op.decomposition() the run used (independent re-execution, not an independent implementation). Error cases with more than 250 generator calls (RecursionError) are compared as Ok/Err only, without running the model. The plxpr (program capture) DecomposeInterpreter and devices.preprocess.decompose's own wrapper are not modelled (the generator is driven directly with strict/custom_decomposer instead). Leftover operators: with the graph disabled the docstring of decompose documents 'left in the circuit with a UserWarning' (allowed, the warning naming the operator is required, strict is ignored by that code path); with the graph enabled GlobalPhase is kept with its own warning (allowed); graph enabled and strict=False treats such operators as supported (allowed); graph enabled and strict=True: the docstring promises a DecompositionError but the operator is returned with a DecompositionWarning only - reported as finding:graph_strict_leftover (corpus case PSWAP**-1). Exceptions other than RecursionError/DecompositionError/DecompositionUndefinedError on valid circuits are reported as crash:<message> (corpus case Pow(Identity,0) with the graph enabled: ValueError 'null_decomp already exists'). Transcribed quirk (not judged): the base of a Conditional is decomposed with num_work_wires reset to the default 0. Circuits have <= 3 wires (MultiControlledX up to 5); semantic comparison of outputs with mid-circuit measurements uses defer_measurements and is numeric only.",
     "assumptions": ["rules chosen by the graph solution are semantics-preserving and have exact declared resources (hypotheses of the theorems; validated per instance)",
                     "program-capture (plxpr) path of decompose is outside the model"],
     "trusted": ["hand-written model coq/Disc/DecompModel.v tied to /repo by correspondence on traced runs",
